@@ -112,10 +112,22 @@ class HistPlan(Plan):
                 j += thin_jobs("asan", b["asan"] // 4, b["ops"], seed, self.san_props, self.crash_props, nshards=NCPU if big else 2, first0=8 * 10 ** 6, extra=["shadow=0"])
             if b.get("miri"):
                 j += miri_hist_jobs(max(4, b["miri"] // 4), b["miri_ops"], seed, self.san_props, tb_every=4, engine="thin", first0=9 * 10 ** 6)
+            # slice payloads (W3)
+            j += thin_jobs("dbg", b["dbg"] // 4, b["ops"], seed, self.san_props, self.crash_props, nshards=NCPU if big else 2, first0=13 * 10 ** 6, engine="slices")
+            if b.get("nostd"):
+                j += thin_jobs("nostd", b["nostd"] // 4, b["ops"], seed, self.san_props, self.crash_props, nshards=4 if big else 1, first0=14 * 10 ** 6, engine="slices")
+            if b.get("asan"):
+                j += thin_jobs("asan", b["asan"] // 4, b["ops"], seed, self.san_props, self.crash_props, nshards=NCPU if big else 2, first0=15 * 10 ** 6,
+                               extra=["shadow=0"], engine="slices")
+            if b.get("miri"):
+                j += miri_hist_jobs(max(4, b["miri"] // 4), b["miri_ops"], seed, self.san_props, tb_every=4, engine="slices", first0=16 * 10 ** 6)
         return j
 
     def required(self, counts, sets, other):
         miss = need(counts, HIST_EDGES + HIST_EDGES_FULL)
+        if self.with_thin:
+            miss += need(counts, ["thin.edge:thin->fat", "thin.edge:fat->thin", "thin.edge:thin->raw", "thin.edge:raw->thin", "slices.edge:slice->hslice",
+                                  "slices.edge:hslice->slice", "slices.edge:raw->slice(from_raw_slice)", "slices.edge:slice->uslice(try_unique)"])
         if counts.get("histories", 0) < 10:
             miss.append("histories")
         return miss
@@ -130,16 +142,19 @@ class C01(HistPlan):
 
     def coverage(self, counts, sets, samples, other, results):
         return dict(
-            evaluations=counts.get("histories", 0),
-            operations=counts.get("ops", 0),
+            evaluations=counts.get("histories", 0) + counts.get("thin.histories", 0) + counts.get("slices.histories", 0),
+            operations=counts.get("ops", 0) + counts.get("thin.ops", 0) + counts.get("slices.ops", 0),
             distinct_nontrivial=len(sets.get("nontrivial_sigs", ())),
             distinct_lifecycles=len(sets.get("sigs", ())),
-            rule="one evaluation = one seeded random history (create/clone/convert/borrow/drop/unique-ops over 10 handle slots and 10 handle kinds, "
+            rule="one evaluation = one seeded random history (sized world: create/clone/convert/borrow/drop/unique-ops over 10 handle slots and 11 handle kinds; thin world: ThinArc/fat/protected/raw/"
+                 "arc-swap/UniqueArc; slice world: Arc<[T]>/HeaderSlice<(),[T]>/raw *const [T]/UniqueArc<[T]>; "
                  "payload shapes T8,T32,T64(over-aligned),TB(owns heap),T1(byte-aligned),Z,Z16(zero-sized with Drop)) checked step by step against the owner-set model, "
                  "the identity registry and the shadow allocator; distinct_nontrivial = distinct per-allocation lifecycle signatures "
                  "(sequence of create/clone/convert/drop events with the handle kinds involved) that involve >=2 handle kinds or a raw-pointer leg",
             samples=samples,
             conversion_edges=sub(counts, "edge."),
+            thin_world_edges=sub(counts, "thin.edge:"),
+            slice_world_edges=sub(counts, "slices.edge:"),
             final_release_by_kind=sub(counts, "final_release_by."),
             moved_out_by=sub(counts, "moved_out_by."),
             shapes=sub(counts, "shape."),
@@ -203,10 +218,10 @@ def miri_conc_jobs(scen, nseeds, per, seed, props, tb_every=5, first0=0, length=
     return jobs
 
 
-def thin_jobs(mode, total, ops, seed, san_props, crash_props, nshards=4, first0=0, extra=(), timeout=900):
+def thin_jobs(mode, total, ops, seed, san_props, crash_props, nshards=4, first0=0, extra=(), timeout=900, engine="thin"):
     jobs = []
     for (first, cnt) in shards(total, nshards):
-        jobs.append(Job(mode, ["thin", "seed=%d" % seed, "first=%d" % (first0 + first), "n=%d" % cnt, "ops=%d" % ops] + list(extra),
+        jobs.append(Job(mode, [engine, "seed=%d" % seed, "first=%d" % (first0 + first), "n=%d" % cnt, "ops=%d" % ops] + list(extra),
                         san_props=san_props, crash_props=crash_props, timeout=timeout))
     return jobs
 
@@ -555,6 +570,15 @@ class C05(ShapesPlan):
 class C11(ShapesPlan):
     prop = "C11"
     fams = "all"
+
+    def jobs(self, tier, seed):
+        j = ShapesPlan.jobs(self, tier, seed)
+        big = tier != "quick"
+        # the history engines compare every handle's value address / heap_ptr with the allocation's after every step
+        j += hist_jobs("dbg", 40000 if big else 400, 220, seed, (), (), nshards=8 if big else 2)
+        j += thin_jobs("dbg", 10000 if big else 200, 220, seed, (), (), nshards=4 if big else 1)
+        j += thin_jobs("dbg", 10000 if big else 200, 220, seed, (), (), nshards=4 if big else 1, engine="slices")
+        return j
     rule = ("same declared matrix as C05; one evaluation = one case in which as_ptr / &*handle / into_raw / OffsetArc and ArcBorrow bit patterns / arc-swap RefCnt pointers are compared with each "
             "other and with the block address recorded by the shadow allocator, from_raw-style round trips (also through a trait-object cast) are checked for same allocation, contents "
             "and count, and size_of of every handle type and its Option is asserted; distinct_nontrivial = distinct (shapes, length, constructor, release/round-trip path) cases")
